@@ -234,19 +234,7 @@ func Minimise(p *Plan, sig string, budget int, run func(*Plan) *Outcome, extra f
 			}
 		}
 	}
-	// 5. integer lists inside ops: drop elements
-	for i := 0; i < len(best.Ops) && runs < budget; i++ {
-		for j := 0; j < len(best.Ops[i].N) && runs < budget; {
-			c := best.Clone()
-			c.Ops[i].N = append(append([]int64(nil), best.Ops[i].N[:j]...), best.Ops[i].N[j+1:]...)
-			if try(c) {
-				best = c
-			} else {
-				j++
-			}
-		}
-	}
-	// 6. property-specific simplifications
+	// 5. property-specific simplifications
 	if extra != nil {
 		for progress := true; progress && runs < budget; {
 			progress = false
